@@ -21,7 +21,7 @@ Fixpoint nodupb (l : list Z) : bool :=
   end.
 
 (* ---------- hypotheses of the property ("hierarchy-valid at start and at target",
-   levels ordered like the tree) ---------- *)
+   batch ordered like the tree) ---------- *)
 
 (* updaters tagged with the index of their level *)
 Fixpoint tag_levels (i : nat) (levels : list (list updater)) : list (list (nat * updater)) :=
@@ -39,6 +39,22 @@ Definition edge_levels_ok (tg : list (nat * updater)) (cp : Z * Z) : bool :=
 Definition levels_ok (e : env) (levels : list (list updater)) : bool :=
   forallb (edge_levels_ok (tagged levels)) (ehier e).
 
+Fixpoint pos (x : Z) (l : list Z) : nat :=
+  match l with
+  | [] => O
+  | y :: t => if x =? y then O else S (pos x t)
+  end.
+
+(* the order hypothesis of a batch whose arrangement is an INPUT (stream "leveled", where the
+   harness plays the caller): the flattened batch lists every parent before its children (both
+   being in the batch). A level may hold a cgroup together with its children, as the qos level of
+   cgreconcile does. ([levels_ok] above, "the parent sits in a strictly upper level", is the
+   stronger condition the bottom-up pass needed before ce7ebc1; see c12_level_forward_refuted.) *)
+Definition topo_ok (e : env) (us : list updater) : bool :=
+  let ks := map ukey us in
+  forallb (fun cp => negb (inb (fst cp) ks && inb (snd cp) ks)
+                     || (pos (snd cp) ks <? pos (fst cp) ks)%nat) (ehier e).
+
 (* both ends of an edge are files of the same kind *)
 Definition env_ok (e : env) : bool :=
   forallb (fun cp => kindof e (fst cp) =? kindof e (snd cp)) (ehier e).
@@ -54,18 +70,23 @@ Definition hyps_ok (e : env) (fs : fmap) (levels : list (list updater)) : bool :
   && validb e fs
   && validb e (target_of fs (concat levels))
   && nodupb (map ukey (concat levels))
-  && levels_ok e levels
+  && topo_ok e (concat levels)
   && vals_ok e fs (concat levels).
 
 (* ---------- hypotheses for one applyCPUSetWithNonePolicy call ---------- *)
 Definition be_updaters (paths : list Z) (new : Z) : list updater :=
   if new =? 0 then [] else map (fun p => mkU p new) paths.
 
-Fixpoint pos (x : Z) (l : list Z) : nat :=
-  match l with
-  | [] => O
-  | y :: t => if x =? y then O else S (pos x t)
-  end.
+(* ---------- hypotheses for a call whose level arrangement is the caller's own ([OCall]) ----------
+   what the property assumes and nothing else: hierarchy valid at start and at target, one updater
+   per file, well-formed values. How the updaters are arranged and ordered is NOT assumed: for the
+   modelled caller it is proved (Proofs_Rc.rc_topo). *)
+Definition hyps_call (e : env) (fs : fmap) (levels : list (list updater)) : bool :=
+  env_ok e
+  && validb e fs
+  && validb e (target_of fs (concat levels))
+  && nodupb (map ukey (concat levels))
+  && vals_ok e fs (concat levels).
 
 (* the walked paths are exactly the files of the hierarchy, every directory after its parent,
    all of them cpuset files whose current value is inside old ∪ new *)
@@ -201,6 +222,15 @@ Fixpoint hist_code (e : env) (fs : fmap) (ops : list op) (obs : list bobs) : Z :
           let new := adj_new procs milli o in
           if be_hyps e fs paths o new then
             let c := prop_code e fs [be_updaters paths new] ws fin in
+            if c =? 0 then hist_code e fin r obs' else c
+          else 0
+      end
+  | OCall ls :: r =>
+      match obs with
+      | [] => 9
+      | (ws, fin) :: obs' =>
+          if hyps_call e fs ls then
+            let c := prop_code e fs ls ws fin in
             if c =? 0 then hist_code e fin r obs' else c
           else 0
       end
